@@ -360,9 +360,22 @@ pub fn deadline_alignment(g: &mut G) -> Scenario {
             }
         }
     }
-    // sub-millisecond class
+    // sub-millisecond class: invocation off the millisecond grid and / or a sub-millisecond timeout
     if g.chance(150) {
         main.insert(1, Op::SleepUs(g.range(100, 900)));
+    }
+    if g.chance(200) {
+        let us = g.pick(&[1u64, 100, 250, 500, 900, 999]);
+        for o in main.iter_mut() {
+            let new = match o {
+                Op::TellT { h, m, .. } => Some(Op::TellUs { h: *h, m: m.clone(), us }),
+                Op::AskT { h, m, .. } => Some(Op::AskUs { h: *h, m: m.clone(), us }),
+                _ => None,
+            };
+            if let Some(n) = new {
+                *o = n;
+            }
+        }
     }
     clients.push(main);
     if g.chance(300) {
@@ -405,6 +418,34 @@ pub fn on_run_alignment(g: &mut G) -> Scenario {
         boundaries.push(1);
     }
     let mut clients: Vec<Vec<Op>> = Vec::new();
+    if cap >= 130 && g.chance(350) {
+        // cooperative-budget edge: a burst of b messages is served in one poll (128 budget units, one per
+        // message taken), then on_run performs k immediately-ready budgeted operations and completes; b + k is
+        // placed around 128 so that the budget runs out exactly when on_run finishes; another message arrives
+        // at the same virtual instant
+        let b = g.range(118, 128);
+        let k = (128 - b) as i64 + g.range(0, 2) as i64 - 1;
+        let out = match g.below(3) {
+            0 => RunOut::Err(90),
+            1 => RunOut::True,
+            _ => RunOut::False,
+        };
+        a.on_run = vec![RunScript { steps: vec![Op::ConsumeBudget(k.max(0) as u32)], out }];
+        if g.chance(500) {
+            a.on_run.push(RunScript { steps: vec![Op::Sleep(3)], out: RunOut::False });
+        }
+        let mut c = vec![Op::Sleep(5)];
+        for _ in 0..b {
+            c.push(tell(0, g));
+        }
+        clients.push(c);
+        clients.push(vec![Op::Sleep(5), Op::Yield(g.range(0, 3) as u32), tell(0, g), Op::Yield(1), tell(0, g)]);
+        if g.chance(300) {
+            clients.push(vec![Op::Sleep(5), Op::Yield(g.range(0, 3) as u32), Op::Kill { h: 0 }]);
+        }
+        let probes = probes_for(g, 1, false);
+        return Scenario { actors: vec![a], clients, probes, peer_slots: false, erase: None, expect: None };
+    }
     let burst = cap >= 130 && g.chance(400);
     for _ in 0..g.range(1, 3) {
         let mut c = Vec::new();
@@ -633,7 +674,7 @@ fn chain_msg(g: &mut G, from: usize, len: usize, back_to: usize, pad: bool) -> M
 /// 2 on_run-headed, 3 on_stop-headed, 4 on_start ring, 5 on_stop ring.
 pub fn forced_cycle(g: &mut G, index: u64) -> Scenario {
     let len = 1 + (index % 5) as usize;
-    let placement = (index / 5) % 6;
+    let placement = (index / 5) % 7;
     let mut actors: Vec<ActorSpec> = (0..len).map(|_| ActorSpec { cap: Some(g.pick(&[1usize, 2, 32])), ..Default::default() }).collect();
     let mut clients: Vec<Vec<Op>> = Vec::new();
     match placement {
@@ -701,6 +742,25 @@ pub fn forced_cycle(g: &mut G, index: u64) -> Scenario {
                 let m = Msg::work(g.mid());
                 actors[i].on_start = vec![ask_variant(g, 50 + ((i + 1) % len) as u32, m)];
             }
+        }
+        6 => {
+            // parked first ask: B fills its own mailbox, so A's ask to B is still waiting for a slot
+            // (not yet queued) when B asks A back from its running handler. The cycle A -> B -> A exists
+            // all the same. Participants: actor 0 = A, actor 1 = B (len forced to 2).
+            let capb = g.pick(&[1usize, 2, 3]);
+            actors.truncate(1);
+            actors.push(ActorSpec { cap: Some(capb), ..Default::default() });
+            let ping = Msg::work(g.mid());
+            let a_msg = Msg::with(g.mid(), vec![ask_variant(g, 51, ping)]);
+            let mut b_steps = vec![Op::Tell { h: 50, m: a_msg }];
+            for _ in 0..capb {
+                b_steps.push(Op::Tell { h: 51, m: Msg::work(g.mid()) });
+            }
+            b_steps.push(Op::Sleep(g.range(2, 6)));
+            let pong = Msg::work(g.mid());
+            b_steps.push(ask_variant(g, 50, pong));
+            clients.push(vec![Op::Tell { h: 1, m: Msg::with(g.mid(), b_steps) }]);
+            return Scenario { actors, clients, probes: vec![], peer_slots: true, erase: None, expect: Some(Expect::Cycle(vec![0, 1])) };
         }
         _ => {
             // a barrier makes sure every participant has stopped serving its mailbox before the
@@ -977,7 +1037,7 @@ pub struct CrashPoint {
 fn msgs_to<'a>(ops: &'a [Op], out: &mut Vec<(usize, u64)>) {
     for o in ops {
         match o {
-            Op::Tell { h, m } | Op::TellT { h, m, .. } | Op::Ask { h, m } | Op::AskT { h, m, .. } | Op::AskJoin { h, m } => {
+            Op::Tell { h, m } | Op::TellT { h, m, .. } | Op::Ask { h, m } | Op::AskT { h, m, .. } | Op::AskJoin { h, m } | Op::TellUs { h, m, .. } | Op::AskUs { h, m, .. } => {
                 out.push(((*h % 50) as usize, m.id));
                 msgs_to(&m.steps, out);
             }
@@ -1027,7 +1087,7 @@ pub fn crash_points(sc: &Scenario) -> Vec<CrashPoint> {
 fn inject_msg(ops: &mut [Op], mid: u64, at_end: bool) {
     for o in ops.iter_mut() {
         match o {
-            Op::Tell { m, .. } | Op::TellT { m, .. } | Op::Ask { m, .. } | Op::AskT { m, .. } | Op::AskJoin { m, .. } => {
+            Op::Tell { m, .. } | Op::TellT { m, .. } | Op::Ask { m, .. } | Op::AskT { m, .. } | Op::AskJoin { m, .. } | Op::TellUs { m, .. } | Op::AskUs { m, .. } => {
                 if m.id == mid {
                     if at_end {
                         m.steps.push(Op::Panic);
@@ -1142,4 +1202,29 @@ pub fn cycle_then_followup(g: &mut G) -> Scenario {
     }
     clients.push(c);
     Scenario { actors, clients, probes: vec![], peer_slots: true, erase: None, expect: None }
+}
+
+
+/// C20 / C18: a handler that demonstrably runs for more than one second of *real* time (rare: costs
+/// a second per run). Durations with a whole-second part exercise paths that short handlers never reach.
+pub fn long_handler(g: &mut G, with_metrics_reads: bool) -> Scenario {
+    let a = ActorSpec { cap: Some(4), ..Default::default() };
+    let mut c = vec![Op::Ask { h: 0, m: Msg::with(g.mid(), vec![Op::Burn(30_000)]) }, Op::Ask { h: 0, m: Msg::with(g.mid(), vec![Op::Burn(1_050_000)]) }];
+    if with_metrics_reads {
+        c.push(Op::Metrics { h: 0 });
+    }
+    c.push(Op::Ask { h: 0, m: Msg::work(g.mid()) });
+    c.push(Op::Tell { h: 0, m: Msg::work(g.mid()) });
+    if with_metrics_reads {
+        c.push(Op::Clone { h: 0, to: 100 });
+        c.push(Op::Downgrade { h: 0, to: 101 });
+    }
+    c.push(Op::Stop { h: 0 });
+    if with_metrics_reads {
+        c.push(Op::Sleep(50));
+        c.push(Op::Metrics { h: 100 });
+        c.push(Op::Upgrade { h: 101, to: 102 });
+        c.push(Op::Metrics { h: 102 });
+    }
+    Scenario { actors: vec![a], clients: vec![c], probes: vec![], peer_slots: false, erase: None, expect: None }
 }
